@@ -51,7 +51,8 @@ PROVED = (
     'of the misalignment (uniqueness). Scaling multiplies every translation by one factor and keeps rotations; the '
     'fixed-point factor puts the reference at the expected distance; the diagonal factor makes the recomputed mean '
     'sensor diagonal equal to the expected one; neither operation changes any object reachable from its inputs '
-    '(heap model of copy.copy + attribute rebinding).')
+    '(heap model of copy.copy + attribute rebinding), also when the inputs share Pose instances or arrays: every position gets its '
+    'own copy, scaled exactly once.')
 NOT_PROVED = (
     'That scipy.optimize.least_squares started from zero reaches the zero residual within its evaluation budget for '
     'every misalignment below 30 degrees / 3 m (the convergence clause): validated by sampling against ground truth '
@@ -159,8 +160,15 @@ def gen_align_case(rng, max_deg=30.0, noise=None, flip=False, wide=False, hard=F
         t = [rng.uniform(-4, 4), rng.uniform(-4, 4), rng.uniform(0.1 if wide else 0.5, 3.0)]
         truth.append([bid, R, t])
         bs.append([bid, _mm(MR, R), _add(_mv(MR, t), Mt)])
+    bs_same = list(range(len(bs)))
+    if rng.random() < 0.2:      # two base-station ids sharing ONE Pose instance (placeholder pose)
+        j = rng.randrange(len(bs))
+        nid = rng.choice([b for b in range(16) if b not in [x[0] for x in bs]])
+        bs.append([nid, copy.deepcopy(bs[j][1]), list(bs[j][2])])
+        truth.append([nid, copy.deepcopy(truth[j][1]), list(truth[j][2])])
+        bs_same.append(bs_same[j])
     MRt = _tr(MR)
-    return {'kind': 'align', 'angle_deg': math.degrees(ang), 'noise': noise, 'origin': origin, 'x_axis': x_axis,
+    return {'kind': 'align', 'bs_same': bs_same, 'angle_deg': math.degrees(ang), 'noise': noise, 'origin': origin, 'x_axis': x_axis,
             'xy_plane': plane, 'bs': bs, 'truth_bs': truth,
             'truth_T': [MRt, [-x for x in _mv(MRt, Mt)]], 'flip': bool(flip), 'wide': bool(wide),
             'container': [_pick_kind(rng), _pick_kind(rng), _pick_kind(rng)], 'pose_readonly': rng.random() < 0.3}
@@ -467,7 +475,7 @@ def check_align(case):
     in_origin = _box(case['origin'], kinds[0], single=True)
     in_x = _box(case['x_axis'], kinds[1])
     in_plane = _box(case['xy_plane'], kinds[2])
-    bs = _bsdict(case['bs'])
+    bs = _bsdict(case['bs'], case.get('bs_same'))
     if case.get('pose_readonly'):
         _freeze(bs.values())
     # the values actually handed over (float32 / int containers round them), taken before the call
@@ -497,6 +505,9 @@ def check_align(case):
         return {'class': 'align_keys_changed', 'case': case, 'expected': keys, 'observed': list(res.keys())}
     if any(res[k] is bs[k] or res[k]._t_vec is bs[k]._t_vec or res[k]._R_matrix is bs[k]._R_matrix for k in keys):
         return {'class': 'align_result_aliases_input', 'case': case, 'expected': 'fresh poses', 'observed': 'aliased'}
+    if len({id(res[k]) for k in keys}) != len(keys):
+        return {'class': 'align_outputs_aliased', 'case': case, 'expected': 'one fresh pose per base station',
+                'observed': 'two ids share one result object'}
     # ---- one proper rigid transformation for all: distances, relative rotations, T itself
     TR, Tt = np.array(T.rot_matrix), np.array(T.translation)
     worst = max(np.abs(TR.T @ TR - np.eye(3)).max(), abs(np.linalg.det(TR) - 1.0))
